@@ -112,8 +112,13 @@ class IndexedGrammar:
             rule.production, [])
         # l_rules contains the left symbol plus what is marked on
         # the right side
-        l_temp = [(x.left_term,
-                   self.marked[x.right]) for x in f_rules]
+        # A non terminal on the left of several consumption rules can use
+        # any of them: we merge what is marked for their right sides
+        marked_by_left = {}
+        for f_rule in f_rules:
+            marked_by_left.setdefault(f_rule.left_term, set()).update(
+                self.marked[f_rule.right])
+        l_temp = list(marked_by_left.items())
         marked_symbols = [x.left_term for x in f_rules]
         # Process all combinations of consumption rule
         was_modified |= addrec_bis(l_temp,
